@@ -186,7 +186,7 @@ func runC09Concurrent(ctx *core.Ctx, out *core.Out) {
 	}
 	// a reader-triggered close is sent by the reader goroutine: wait until it is through
 	if cs.Path >= cpCloseHandler {
-		for i := 0; i < 20000 && atomic.LoadInt64(&rdDone) == 0; i++ {
+		for limit := time.Now().Add(20 * time.Second); time.Now().Before(limit) && atomic.LoadInt64(&rdDone) == 0; {
 			time.Sleep(time.Millisecond)
 		}
 		if atomic.LoadInt64(&rdDone) == 0 {
